@@ -3,6 +3,7 @@ package relmod
 
 import (
 	"context"
+	"fmt"
 	"sort"
 	"strings"
 
@@ -13,8 +14,13 @@ import (
 type tuple map[string]interface{}
 
 // Normalize transforms a module into a relational model schema.
-func Normalize(ctx context.Context, m *sysl.Module) (*Schema, error) {
-	var err error
+func Normalize(ctx context.Context, m *sysl.Module) (schema *Schema, err error) {
+	// the helpers panic on attribute shapes they do not support: refuse with an error
+	defer func() {
+		if r := recover(); r != nil {
+			schema, err = nil, fmt.Errorf("relmod: model cannot be normalized: %v", r)
+		}
+	}()
 	ctx, err = withPayloadParser(ctx)
 	if err != nil {
 		return nil, err
